@@ -35,7 +35,8 @@ CLAIM = dict(
     technique="Lean 4 theorems over a hand-written model + differential correspondence + Lean spec as oracle")
 
 THEOREMS = ["deliveredB_iff", "delivered_no_flag", "deliver_of_tree", "deliver_of_tree_root", "deliver_congr",
-            "covered_of_tree", "deliver_minimised", "pipeline_delivery", "ex_hyps"]
+            "covered_of_tree", "deliver_minimised", "pipeline_delivery", "ex_hyps", "placement_bridge",
+            "allocation_bridge"]
 
 RULE = ("pipelines on machines 1x1..8x8 (quick) / ..24x24 (thorough), torus / mesh / partly wrapped, dead chips, links dead "
         "in one or both directions, per-chip core-count exceptions, busy cores (monitor + random) as SystemInfo core "
@@ -212,7 +213,7 @@ def gen_problem(rng, sizes, cfg=None, faulty=False):
         a, b2 = rng.sample(range(nv), 2)
         if a not in pinned and b2 not in pinned:
             cs.append({"t": "same", "vs": [a, b2]})
-    rtr = rng.choice([1023, 1023, 1023, 0, 2, 5, 12])
+    rtr = rng.choice([1023, 1023, 1023, 1023, 1023, 0, 2, 5, 12])
     prob = dict(w=w, h=h, dead_chips=mach["dead_chips"], dead_links=sorted(map(list, dead_links)),
                 ncores=ncores, exc=exc, busy=[[c[0], c[1], busy[c]] for c in live if busy[c]],
                 sdram=rng.choice([5000, 100000]), rtr=rtr,
@@ -227,7 +228,7 @@ def gen_problem(rng, sizes, cfg=None, faulty=False):
 def gen_cfg(rng, i=None):
     return dict(placer=PLACERS[i % len(PLACERS)] if i is not None else rng.choice(PLACERS),
                 radius=rng.choice(RADII), methods=rng.choice(["default", "default", "rd", "oc", "none"]),
-                target=rng.choice(TARGETS + [None, "large"]), target_dict=rng.random() < 0.5,
+                target=rng.choice(TARGETS + [None, None, "large", "large"]), target_dict=rng.random() < 0.5,
                 api=rng.choice(APIS))
 
 
